@@ -65,6 +65,7 @@ def tyEq (a b : Ty) : Bool :=
   | .notUndef t => (match b with | .notUndef t' => tyEq t t' | _ => false)
   | .typ t => (match b with | .typ t' => tyEq t t' | _ => false)
   | .sensitive t => (match b with | .sensitive t' => tyEq t t' | _ => false)
+  | .iterator t => (match b with | .iterator t' => tyEq t t' | _ => false)
   | .iterable t => (match b with | .iterable t' => tyEq t t' | _ => false)
   | .object p => (match b with | .object q => p == q | _ => false)
 termination_by a.w + b.w
@@ -137,6 +138,7 @@ def keyEq : Ty → Ty → Bool
        | _, _ => false)
   | .typ t, .typ t' => keyEq t t'
   | .sensitive t, .sensitive t' => keyEq t t'
+  | .iterator t, .iterator t' => keyEq t t'
   | .iterable t, .iterable t' => keyEq t t'
   | .object p, .object p' => p == p'
   | _, _ => false
@@ -185,6 +187,7 @@ def generalize : Ty → Ty
   | .notUndef t => .notUndef (genericType t)
   | .optional t => .optional (genericType t)
   | .sensitive t => .sensitive (genericType t)
+  | .iterator t => .iterator (genericType t)
   | .typ t => .typ (genericType t)
   | .struct ms => .struct (genericM ms)
   | .tuple ts g => .tuple (generalizeL ts) g
@@ -203,6 +206,7 @@ def genericType : Ty → Ty
   | .notUndef t => .notUndef (genericType t)
   | .optional t => .optional (genericType t)
   | .sensitive t => .sensitive (genericType t)
+  | .iterator t => .iterator (genericType t)
   | .typ t => .typ (genericType t)
   | .struct ms => .struct (genericM ms)
   | .tuple ts g => .tuple (generalizeL ts) g
@@ -277,6 +281,10 @@ def commonF : Nat → Ty → Ty → Ty
       | .iterable x =>
           (match b with
            | .iterable y => .iterable (commonF n x y)
+           | _ => commonTail cfg sfh a b)
+      | .iterator x =>
+          (match b with
+           | .iterator y => .iterator (commonF n x y)
            | _ => commonTail cfg sfh a b)
       | .notUndef x =>
           (match b with
